@@ -723,20 +723,24 @@ func c05CRCDominates(p *load.Program, r *oblig.Report) {
 	if fn != nil {
 		// the comparison dec.crc32 != uint32(crc)
 		var cmpBlock *ssa.BasicBlock
+		mis, match := 0, 1 // successors taken when the checksums differ / agree
 		for _, b := range an.Blocks(fn) {
 			_, ci := an.IfCond(b)
-			if ci == nil || ci.Op != token.NEQ {
+			if ci == nil || (ci.Op != token.NEQ && ci.Op != token.EQL) {
 				continue
 			}
 			if strings.Contains(argDesc(ci.X), ".crc32") || strings.Contains(argDesc(ci.Y), ".crc32") {
 				cmpBlock = b
+				if (ci.Op == token.EQL) != ci.Neg {
+					mis, match = 1, 0
+				}
 			}
 		}
 		if cmpBlock == nil {
 			r.Bad(rule, "readFromVersion2 → crc comparison", p.Pos(fn.Pos()), "if dec.crc32 != uint32(crc) { return error }", "comparison not found")
 		} else {
 			// true edge returns a non-nil error
-			tb := cmpBlock.Succs[0]
+			tb := cmpBlock.Succs[mis]
 			retErr := false
 			if ret, ok := tb.Instrs[len(tb.Instrs)-1].(*ssa.Return); ok && len(ret.Results) == 1 && !an.IsNilConst(ret.Results[0]) {
 				retErr = true
@@ -755,7 +759,7 @@ func c05CRCDominates(p *load.Program, r *oblig.Report) {
 					}
 				}
 				n++
-				if !(cmpBlock.Succs[1] == st.Block() || cmpBlock.Succs[1].Dominates(st.Block())) {
+				if !(cmpBlock.Succs[match] == st.Block() || cmpBlock.Succs[match].Dominates(st.Block())) {
 					okAll = false
 				}
 			})
@@ -774,10 +778,14 @@ func c05CRCDominates(p *load.Program, r *oblig.Report) {
 	okMismatch := false
 	for _, b := range an.Blocks(rm) {
 		_, ci := an.IfCond(b)
-		if ci == nil || ci.Op != token.NEQ || !(strings.Contains(argDesc(ci.X), ".crc32") || strings.Contains(argDesc(ci.Y), ".crc32")) {
+		if ci == nil || (ci.Op != token.NEQ && ci.Op != token.EQL) || !(strings.Contains(argDesc(ci.X), ".crc32") || strings.Contains(argDesc(ci.Y), ".crc32")) {
 			continue
 		}
-		for _, ins := range b.Succs[0].Instrs {
+		mismatch := 0 // successor taken when the checksums differ
+		if (ci.Op == token.EQL) != ci.Neg {
+			mismatch = 1
+		}
+		for _, ins := range b.Succs[mismatch].Instrs {
 			if c, ok := ins.(*ssa.Call); ok {
 				if f := c.Call.StaticCallee(); f != nil && (an.RefFuncName(f) == "Errorf" || an.RefFuncName(f) == "New") {
 					okMismatch = true
@@ -899,7 +907,7 @@ func c05NullAndOrder(p *load.Program, r *oblig.Report) {
 			}
 			for _, pred := range st.Block().Preds {
 				_, ci := an.IfCond(pred)
-				if ci != nil && ci.Op == token.NEQ && an.IsNilConst(ci.Y) && pred.Succs[0] == st.Block() && strings.HasSuffix(argDesc(ci.X), "."+name) {
+				if ci.Edge(token.NEQ) >= 0 && an.IsNilConst(ci.Y) && pred.Succs[ci.Edge(token.NEQ)] == st.Block() && strings.HasSuffix(argDesc(ci.X), "."+name) {
 					guarded[name] = true
 				}
 			}
@@ -930,8 +938,8 @@ func c05NullAndOrder(p *load.Program, r *oblig.Report) {
 		}
 		_, ci := an.IfCond(f.Blocks[0])
 		ok := false
-		if ci != nil && an.IsNilConst(ci.Y) && ci.Op == token.EQL {
-			for _, ins := range an.Blocks(f)[0].Succs[0].Instrs {
+		if e := ci.Edge(token.EQL); e >= 0 && an.IsNilConst(ci.Y) {
+			for _, ins := range an.Blocks(f)[0].Succs[e].Instrs {
 				if c, isC := ins.(*ssa.Call); isC && len(c.Call.Args) > 1 {
 					if v, isK := an.ConstInt(an.Unwrap(c.Call.Args[1])); isK && v == -1 {
 						ok = true
